@@ -204,11 +204,14 @@ def add_input_to_map(operation: InputASTOperation):
     PARTIES[party_name] = operation.party
     if party_name not in INPUTS:
         INPUTS[party_name] = {}
-    if (
-        operation.name in INPUTS[party_name]
-        and INPUTS[party_name][operation.name][0].id != operation.id
-    ):
-        raise CompilerException(f"Input is duplicated: {operation.name}")
+    # Input names are global in the MIR (operations refer to inputs by name only),
+    # so a name must not be declared twice, whichever parties own the inputs.
+    for party_inputs in INPUTS.values():
+        if (
+            operation.name in party_inputs
+            and party_inputs[operation.name][0].id != operation.id
+        ):
+            raise CompilerException(f"Input is duplicated: {operation.name}")
 
     INPUTS[party_name][operation.name] = (operation, operation.ty)
     return operation.to_mir()
